@@ -5,6 +5,10 @@ Cases:  {'k': 's', 's': str}                       one script
 K_parse compares, string by string, the extracted Gallina model (parse_model_M, OCaml driver) with
 fsic.parse_model(check_syntax=False): outcome class and every field of every Symbol; for single scripts also
 parse_model(check_syntax=True) against the model run with the oracle `chk` tabulated from CPython's real compile().
+Component level (the hand-written stand-ins for Python's regex engine are compared with the regexes themselves):
+K_lex   Lex.toks vs term_re.finditer (span, kind, name, index of every match) — every string of every shard and every script;
+K_eqre  Split.stmt_ok vs equation_re.search(...) is not None — likewise;
+K_split Split.split_M vs split_equations_iter (every statement and the exception that ends the iteration) — every script.
 The oracle is the property's text evaluated on the real code only (see `judge`)."""
 import itertools
 import json
@@ -19,7 +23,9 @@ ID = 'C13'
 PROPS_FILE = 'Props/C13.v'
 MODEL_FILES = ['Parser/PyStr.v', 'Parser/Lex.v', 'Parser/Format.v', 'Parser/Symbols.v', 'Parser/Split.v', 'Parser/Merge.v',
                'Parser/ParseEq.v', 'Parser/ParseModel.v', 'Extract/Parser/ExtractParser.v']
-K_NAME = 'K_parse (extracted Parser.ParseModel.parse_model_M vs fsic.parse_model: outcome class + every Symbol field)'
+K_NAME = ('K_parse (extracted Parser.ParseModel.parse_model_M vs fsic.parse_model: outcome class + every Symbol field) + component level: '
+          'K_lex (Lex.toks vs term_re.finditer: every span, kind, name, index), K_eqre (Split.stmt_ok vs equation_re.search), '
+          'K_split (Split.split_M vs split_equations_iter: every statement + the closing exception)')
 RULE = ('exhaustive: every string up to length 4 (quick) / 5 (thorough) over the 30-symbol alphabet a Y i f s n 1 _ blank newline '
         '= + - * / . , ( ) [ ] { } < > ` # \' " e-acute, in shards of 900 strings (one case = one shard, so `evaluations` counts '
         'shards: multiply by 900), plus a random slice of the next length; plus C01-grammar scripts and their mutations (token '
@@ -135,6 +141,11 @@ def in_finding_class(s):
     return False
 
 
+def lex_finding_class(s):
+    """#20: whitespace between a name (or closing brace / angle bracket) and its index bracket — a repair changes term_re itself"""
+    return re.search(r'[A-Za-z0-9_}>]\s+\[', s) is not None
+
+
 # --------------------------------------------------------------------------- observation (runs in the worker, on the real fsic)
 class _Canary:
     hits = 0
@@ -180,6 +191,12 @@ def _site(e):
     return site
 
 
+def _with_cause(e):
+    """exception class, with the class of the exception it was raised from / while handling (BuildError<-IndentationError)"""
+    c = e.__cause__ or e.__context__
+    return type(e).__name__ + ('<-' + type(c).__name__ if c is not None else '')
+
+
 def _snapshot():
     import builtins
     import warnings
@@ -222,11 +239,47 @@ def _classify_count(s, texts, emitted, unclosed):
     return 'dropped' if emitted < len(texts) else 'extra'
 
 
+_LEX_KEYS = ('_VERBATIM', '_INVALID', '_KEYWORD', '_FUNCTION', '_PARAMETER', '_ERROR', '_VARIABLE')
+
+
+def lex_line(s):
+    """fsic.parser.term_re.finditer(s) in the format of the driver's T command: start,end,KIND,hex(name),index"""
+    import fsic
+    out = []
+    for m in fsic.parser.term_re.finditer(s):
+        gd = m.groupdict()
+        key = next((k for k in _LEX_KEYS if gd.get(k) is not None), None)
+        out.append('%d,%d,%s,%s,%s' % (m.start(), m.end(), key[1:] if key else '?', pc.hx(gd[key]) if key else '', pc.enc_opt(gd.get('INDEX'))))
+    return ';'.join(out)
+
+
+def eqre_line(s):
+    import fsic
+    return '1' if fsic.parser.equation_re.search(s) is not None else '0'
+
+
+def split_line(s):
+    """list(split_equations_iter(s)) and the exception (if any) that ends the iteration"""
+    import fsic
+    out, err = [], '-'
+    try:
+        for st in fsic.parser.split_equations_iter(s):
+            out.append(pc.hx(st))
+    except BaseException as e:      # noqa: BLE001
+        err = type(e).__name__
+    return ';'.join(out) + '|' + err
+
+
 def observe(s, light=False):
     """Everything the property talks about, on the real code, for one script."""
     import fsic
     _install()
     o = {}
+    if not light:
+        # the components, for the component-level correspondences K_lex / K_eqre / K_split
+        o['lex'] = lex_line(s)
+        o['eqre'] = eqre_line(s)
+        o['split'] = split_line(s)
     # (1) check_syntax=False: the K observable
     try:
         o['nc'] = 'O:' + pc.enc_symbols(fsic.parse_model(s, check_syntax=False))
@@ -234,6 +287,28 @@ def observe(s, light=False):
         o['nc'] = 'E:' + type(e).__name__
         if type(e).__name__ not in OWN:
             o['nc_site'] = _site(e)
+    # (1b) no state between calls: what a caller does with the lists it was handed must not change a later parse
+    if not light:
+        try:
+            stmts = list(fsic.parser.split_equations_iter(s))
+        except BaseException:       # noqa: BLE001
+            stmts = []
+        for st in stmts[:12]:
+            try:
+                own = fsic.parser.parse_equation(st)
+                del own[:]
+            except BaseException:   # noqa: BLE001
+                pass
+        try:
+            again = fsic.parse_model(s, check_syntax=False)
+            line = 'O:' + pc.enc_symbols(again)
+            del again[:]
+        except BaseException as e:  # noqa: BLE001
+            line = 'E:' + type(e).__name__
+        if line != o['nc']:
+            o['history'] = line
+        elif pc.real_line(s, False) != o['nc']:
+            o['history'] = 'third parse differs'
     # (2) the default call, under the canary
     h0 = _Canary.hits
     try:
@@ -256,7 +331,7 @@ def observe(s, light=False):
             o['emitted'] = len(calls)
         except BaseException as e:  # noqa: BLE001
             o['emitted'] = len(emitted_syms)
-            o['build'] = type(e).__name__
+            o['build'] = _with_cause(e)
         o['expected'] = len(texts)
         o['clear'] = clear
         if clear and o['emitted'] != len(texts):
@@ -266,7 +341,7 @@ def observe(s, light=False):
                 M = fsic.build_model(syms)
             except BaseException as e:  # noqa: BLE001
                 M = None
-                o['build'] = type(e).__name__
+                o['build'] = _with_cause(e)
             if M is not None:
                 try:
                     M(range(3))
@@ -294,6 +369,9 @@ def judge(s, o):
         if o.get('count_class'):
             out.append(('statement-count|' + o['count_class'],
                         '%d statement(s) but %d equation/verbatim block(s) in the built model (%s)' % (o['expected'], o['emitted'], o['count_class'])))
+    if o.get('history'):
+        out.append(('state-between-calls', 'parsing the same script again after the caller emptied the lists an earlier parse_equation / parse_model '
+                    'returned gives a different result (%s, first %s)' % (o['history'][:60], o.get('nc', '')[:60])))
     if o.get('canary'):
         out.append(('executed-model-code', 'parsing/building CALLED a function named in the script (canary hit %d time(s))' % o['canary']))
     return out
@@ -319,18 +397,25 @@ def impl(case):
         return o
     snap = _snapshot()
     h = hashlib.md5()
+    h_lex = hashlib.md5()
+    h_ok = hashlib.md5()
     n = 0
     classes = {}
     anomalies = []
-    lines = []
+    lines, lines_lex, lines_ok = [], [], []
     n_ok = 0
     for s in _enum_strings(case):
         o = observe(s, light=True)
         n += 1
         ln = o['nc']
         h.update(ln.encode('ascii') + b'\n')
+        l_lex, l_ok = lex_line(s), eqre_line(s)
+        h_lex.update(l_lex.encode('ascii') + b'\n')
+        h_ok.update(l_ok.encode('ascii') + b'\n')
         if case.get('verbose'):
             lines.append(ln)
+            lines_lex.append(l_lex)
+            lines_ok.append(l_ok)
         key = ln[:1] if ln.startswith('O') else ln[2:]
         classes[key] = classes.get(key, 0) + 1
         if o['cs'] == 'ok':
@@ -338,9 +423,12 @@ def impl(case):
         if judge(s, o):
             if len(anomalies) < 200:
                 anomalies.append([s, o])
-    out = {'md5': h.hexdigest(), 'n': n, 'classes': classes, 'anomalies': anomalies, 'n_ok': n_ok}
+    out = {'md5': h.hexdigest(), 'md5_lex': h_lex.hexdigest(), 'md5_ok': h_ok.hexdigest(), 'n': n, 'classes': classes,
+           'anomalies': anomalies, 'n_ok': n_ok}
     if case.get('verbose'):
         out['lines'] = lines
+        out['lines_lex'] = lines_lex
+        out['lines_ok'] = lines_ok
     if _snapshot() != snap:
         out['side_effect'] = True
     return out
@@ -367,6 +455,8 @@ CORPUS = [
     '\tY = X', 'Y = X\n\tZ = W', 'Y\t=\tX', 'Y = X\x00Z', '\x00', 'Y = \xe9', '\xe9 = 1', 'Y = X\xa0', '\xa0Y = X', 'Y = X\x1cZ = W', 'Y = X\x0bZ = W',
     '```\n(\n```', '```\n)\n```', '```\n(\n```\nY = X)', '````\nx = 1\n````', '```\nx = 1\n````', '````\nx = 1\n```', '```python\nx = 1\n```', '```\n```', '```\n\n```',
     '```\nx = 1\n```\n```\nx = 1\n```', '`x = 1`\n`x = 1`', 'Y = X\n```\nz = 1\n```\nY = X',
+    'Y = f(X) + {f}', 'Y = {f} + f(X)', 'Y = scale(X)\nZ = {scale} * Y', 'Z = {scale} * X\nY = scale(Z)', 'Y = {a} + <a>', 'Y = <a>\nZ = {a}', 'Y = f(X) + <f>', 'Y = f(X)\nf = 1',
+    '```\n a=1\n```', '```\n a=1\nb=2\n```', '```\n\ta=1\n```', '` a = 1`', '{p} = X', '<e> = X + 1', 'f(2) = X', '`a` = X', 'Y = C + G\n{a} = Y * 2\nC = {a} * Y[-1]',
     'status = 1', 'Y = lags', 'Y = {check}', '`x = 1; from os import *`',                          # NEW: accepted but cannot be built / instantiated
     'Y = ' + '+'.join(['X'] * 3000), 'Y = ' + '-' * 6000 + 'X',                                   # NEW: RecursionError / MemoryError from compile()
     'Y = ' + '(' * 250 + 'X' + ')' * 250, 'Y = X[' + '1' * 5000 + ']',
@@ -454,24 +544,55 @@ def correspond(cases, obs, tag, tier):
             differ.append(i)
     if errors:
         return [], errors
-    if differ:
-        # string-by-string comparison of the differing shards (PUnmodelled strings are skipped)
-        reqs = ['EV %s %d %s' % (alpha_hex, cases[i]['len'], pc.hx(cases[i]['prefix'])) for i in differ]
-        mans, errs = pc.run_driver(reqs, multi=True)
+    # --- shards: the term lexer (Lex.toks vs term_re.finditer) and stmt_ok vs equation_re.search, digests
+    differ_c = {}
+    for cmd, key in (('EL', 'md5_lex'), ('EK', 'md5_ok')):
+        idx = [i for i in enum_idx if key in obs[i]]
+        ans, errs = pc.run_driver(['%s %s %d %s' % (cmd, alpha_hex, cases[i]['len'], pc.hx(cases[i]['prefix'])) for i in idx])
         if errs:
             return [], errs
-        vobs = lib.run_impl(ID, [dict(cases[i], verbose=True) for i in differ], per_case_timeout=CASE_TIMEOUT)
-        for i, mlines, vo in zip(differ, mans, vobs):
-            if not vo or 'lines' not in vo or len(vo['lines']) != len(mlines):
-                errors.append('verbose re-run of shard %r failed' % (cases[i],))
+        for i, a in zip(idx, ans):
+            if a.split(':')[1] != obs[i][key]:
+                differ_c.setdefault(i, []).append(cmd)
+    todo = sorted(set(differ) | set(differ_c))
+    if todo:
+        # string-by-string comparison of the differing shards (PUnmodelled strings are skipped)
+        vobs = dict(zip(todo, lib.run_impl(ID, [dict(cases[i], verbose=True) for i in todo], per_case_timeout=CASE_TIMEOUT)))
+        for cmd, key, what, filt in (('EV', 'lines', 'parse_model(check_syntax=False)', in_finding_class), ('ELV', 'lines_lex', 'term_re.finditer', lex_finding_class),
+                                     ('EKV', 'lines_ok', 'equation_re.search', None)):
+            sel = [i for i in todo if (i in differ if cmd == 'EV' else cmd[:2] in differ_c.get(i, ()))]
+            if not sel:
                 continue
-            dis = [(s, r, m) for s, r, m in zip(_enum_strings(cases[i]), vo['lines'], mlines) if m != 'U' and m != r]
-            dis = [d for d in dis if not in_finding_class(d[0])]
-            if dis:
-                bad.append(i)
-                _K_DETAIL[lib.jhash(cases[i])] =[{'s': s, 'impl': r, 'model': m} for s, r, m in dis[:5]]
+            mans, errs = pc.run_driver(['%s %s %d %s' % (cmd, alpha_hex, cases[i]['len'], pc.hx(cases[i]['prefix'])) for i in sel], multi=True)
+            if errs:
+                return [], errs
+            for i, mlines in zip(sel, mans):
+                vo = vobs.get(i)
+                if not vo or key not in vo or len(vo[key]) != len(mlines):
+                    errors.append('verbose re-run of shard %r failed' % (cases[i],))
+                    continue
+                dis = [(s, r, m) for s, r, m in zip(_enum_strings(cases[i]), vo[key], mlines) if m != 'U' and m != r]
+                if filt is not None:
+                    dis = [d for d in dis if not filt(d[0])]
+                if dis:
+                    bad.append(i)
+                    _K_DETAIL.setdefault(lib.jhash(cases[i]), []).extend({'s': s, 'impl': r, 'model': m, 'component': what} for s, r, m in dis[:5])
         if errors:
             return [], errors
+    # --- single scripts: the components
+    for cmd, key, what, filt in (('T', 'lex', 'term_re.finditer', lex_finding_class), ('K', 'eqre', 'equation_re.search', None),
+                                 ('S', 'split', 'split_equations_iter', in_finding_class)):
+        idx = [i for i in s_idx if key in obs[i]]
+        ans, errs = pc.run_driver(['%s %s' % (cmd, pc.hx(cases[i]['s'])) for i in idx])
+        if errs:
+            return [], errs
+        for i, m in zip(idx, ans):
+            if cmd == 'S':      # S:<hex statement>,<codes…>;…|<exception or ->
+                body, err = m[2:].rsplit('|', 1)
+                m = ';'.join(st.split(',')[0] for st in body.split(';') if st) + '|' + err
+            if m != obs[i][key] and not (filt is not None and filt(cases[i]['s'])):
+                bad.append(i)
+                _K_DETAIL.setdefault(lib.jhash(cases[i]), []).append({'s': cases[i]['s'], 'impl': obs[i][key], 'model': m, 'component': what})
     # --- single scripts, check_syntax=False
     ans, errs = pc.run_driver(['P ' + pc.hx(cases[i]['s']) for i in s_idx])
     if errs:
@@ -513,7 +634,8 @@ def correspond(cases, obs, tag, tier):
         if not agree and not in_finding_class(cases[i]['s']) and i not in bad:
             bad.append(i)
             _K_DETAIL[lib.jhash(cases[i])] =[{'s': cases[i]['s'], 'impl': real, 'model': m, 'check_syntax': True}]
-    return sorted(set(bad)), errors
+    order = sorted(set(bad), key=lambda i: (len(cases[i].get('s', '')), i))      # the shortest disagreeing script first
+    return order, errors
 
 
 def explain(case, obs):
